@@ -146,7 +146,7 @@ def run_shard(desc):
         # the long instances differ from it only in the number of repetitions of well-formed statements.
         STMTS = ["v = 1", "a + 1", "f(2)", "[1, 2]", "x ? 1 : 2", "n ++", "not b", "{1: 2}"]
         TAILS = ["]", ")", "}", "v + )", "[1 2]", "{1: 2", "(1", ",", ";", "1 +", "* 3", "1.2.3", "f(1 2)", "x ? 1", ": 2", "in", "1..2", "a = "]
-        counts = [3, 64, 255, 256, 257, 1000, 1023, 1024, 1025, 2048, 4096, 10000] + ([] if arg == 0 else [65535, 65536, 65537, 200000])
+        counts = [3, 64, 255, 256, 257, 1000, 1023, 1024, 1025, 2048, 4096, 10000] + ([] if arg == 0 else [65535, 65536, 65537, 100000])
         steps, plan = [], []
         for ci, cnt in enumerate(counts):
             for ti, tail in enumerate(TAILS):
